@@ -147,8 +147,8 @@ def expressions(thorough: bool):
         out.append(('lemma2', 'and_intro', d, d))                        # the same thunk used twice
     # a notation-like plug whose map was built with descending keys (insertion order != key order)
     for d in prim[:4]:
-        out.append(('inst', d, ((0, 12),)))
-        out.append(('dinst', d, ((1, 12), (0, 2))))
+        out.append(('inst', d, ((0, 14),)))
+        out.append(('dinst', d, ((1, 14), (0, 2))))
     ir = ('lemma', 'imp_refl', (0,))
     out.append(('lemma2', 'imp_transitivity', ir, ir))
     out.append(('mp', ('inst', ('prop1',), ((0, 0), (1, 0))), ('lemma', 'imp_refl', (0,))))
